@@ -12,6 +12,7 @@ import random
 import traceback
 
 import jax
+import jax.numpy as jnp
 import numpy as np
 
 from dsim import gen
@@ -99,6 +100,8 @@ def draw_ops(rng, cfg, n_ops):
 
 def run_sharded(fs, sh_in, chooser, faults):
   sim = spmd.Simulator(chooser, faults)
+  # eager execution: python scalars must be arrays (under jit they would be tracers)
+  sh_in = jax.tree_util.tree_map(jnp.asarray, sh_in)
   with sim.installed():
     out = fs(*sh_in)
     out = jax.tree_util.tree_map(np.asarray, out)
